@@ -76,6 +76,9 @@ type c15Case struct {
 	// Incremental: the new program is the old one with entries appended to its prefix sets, and the
 	// change is made with AddDefinedSet (no replace) instead of SetPolicies
 	Incremental bool `json:"incremental"`
+	// Removal (with Incremental): the new program is the old one with the last entries of its prefix sets removed
+	// (at least one entry stays, and only entries that do not occur among the kept ones go), made with DeleteDefinedSet
+	Removal bool `json:"removal,omitempty"`
 	// StaleSource: source peer 0 negotiates graceful restart and loses its transport after its
 	// announcements, so its routes are retained as stale when the policy changes
 	StaleSource bool `json:"stale_source"`
@@ -152,7 +155,24 @@ func drawC15(t *rapid.T) c15Case {
 	c.Incremental = rapid.IntRange(0, 3).Draw(t, "incremental") == 0
 	if c.Incremental {
 		c.New.Import, c.New.Export = c.Old.Import, c.Old.Export
+		c.Removal = rapid.IntRange(0, 2).Draw(t, "removal") == 0
 		for i := range c.New.PrefixSets {
+			if c.Removal {
+				old := c.Old.PrefixSets[i]
+				keep := len(old)
+				for keep > 1 && rapid.Bool().Draw(t, fmt.Sprintf("rm%d_%d", i, keep)) {
+					dup := false
+					for _, e := range old[:keep-1] {
+						dup = dup || e == old[keep-1]
+					}
+					if dup {
+						break
+					}
+					keep--
+				}
+				c.New.PrefixSets[i] = append([]string{}, old[:keep]...)
+				continue
+			}
 			extra := c.New.PrefixSets[i]
 			c.New.PrefixSets[i] = append(append([]string{}, c.Old.PrefixSets[i]...), extra...)
 		}
@@ -520,7 +540,15 @@ func runC15(t *testing.T) func(c c15Case, st *verifkit.Stats) *verifkit.Failure 
 			r.logf("-- policy changed (incremental=%v) --", c.Incremental)
 			if c.Incremental {
 				for i, es := range c.New.PrefixSets {
-					extra := es[len(c.Old.PrefixSets[i]):]
+					var extra []string
+					if c.Removal {
+						extra = c.Old.PrefixSets[i][len(es):]
+						if len(extra) == 0 {
+							continue
+						}
+					} else {
+						extra = es[len(c.Old.PrefixSets[i]):]
+					}
 					ds := &api.DefinedSet{DefinedType: api.DefinedType_DEFINED_TYPE_PREFIX, Name: fmt.Sprintf("ps%d", i)}
 					for _, e := range extra {
 						pfx, rng, _ := strings.Cut(e, " ")
@@ -529,6 +557,12 @@ func runC15(t *testing.T) func(c c15Case, st *verifkit.Stats) *verifkit.Failure 
 							fmt.Sscanf(rng, "%d..%d", &ap.MaskLengthMin, &ap.MaskLengthMax)
 						}
 						ds.Prefixes = append(ds.Prefixes, ap)
+					}
+					if c.Removal {
+						if err := r.n.s.DeleteDefinedSet(context.Background(), &api.DeleteDefinedSetRequest{DefinedSet: ds, All: false}); err != nil {
+							return verifkit.Failf("setup", "DeleteDefinedSet: %v", err)
+						}
+						continue
 					}
 					if err := r.n.s.AddDefinedSet(context.Background(), &api.AddDefinedSetRequest{DefinedSet: ds, Replace: false}); err != nil {
 						return verifkit.Failf("setup", "AddDefinedSet: %v", err)
@@ -617,6 +651,9 @@ func runC15(t *testing.T) func(c c15Case, st *verifkit.Stats) *verifkit.Failure 
 		st.Label(fmt.Sprintf("reset-kind-%d", c.Reset))
 		if c.Incremental {
 			st.Label("incremental-defined-set-change")
+		}
+		if c.Removal {
+			st.Label("incremental-removal")
 		}
 		if c.StaleSource {
 			st.Label("stale-source")
